@@ -5,7 +5,7 @@ from units.common import itemref_items
 F = "src/util/symbol_manager.rs"
 IMPL = "<T> SymbolManager<T>"
 
-R8 = Rewrite("self.get_children(parent_ref).get(hierarchy[0].borrow())", "verif_lookup(self.get_children(parent_ref), &hierarchy[0])", rule="R8",
+R8 = Rewrite(r"(self\.get_children\([^()]*\))\s*\.get\(([^()]+?)\.borrow\(\)\)", r"verif_lookup(\1, &\2)", regex=True, count=None, rule="R8",
              why="HashMap<String,_>::get with a borrowed key of a generic S: Borrow<str> -> prelude wrapper with an assumed (uninterpreted) lookup contract")
 
 SLICE1 = Insert("                    self.traverse(", "                    proof { assert(texts(hierarchy@.subrange(1, hierarchy@.len() as int)) =~= texts(hierarchy@).drop_first()); }\n", where="before")
@@ -15,15 +15,14 @@ traverse = Fn(F, "traverse", impl=IMPL, impl_header=IMPL, slot="util", ret="res"
     ensures=[C("descends_along_path", "res == self.spec_traverse(parent_ref, texts(hierarchy@))", ["C15"]),
              C("result_exists", "self.ref_ok(res)", ["C03"])],
     decreases="hierarchy@.len()",
-    rewrites=[R8], inserts=[SLICE1])
+    rewrites=[R8])
 
 get_parent = Fn(F, "get_parent", impl=IMPL, impl_header=IMPL, slot="util", ret="res", key="SymbolManager::get_parent", props=["C15", "C03"],
     requires=[C("wf", "self.wf() && self.ref_ok(parent_ref)", ["C03"])],
     ensures=[C("descends_along_path", "res == self.spec_parent(parent_ref, texts(hierarchy@))", ["C15"]),
              C("result_exists", "self.ref_ok(res)", ["C03"])],
     decreases="hierarchy@.len()",
-    rewrites=[R8],
-    inserts=[Insert("                self.get_parent(", "                proof { assert(texts(hierarchy@.subrange(1, hierarchy@.len() as int)) =~= texts(hierarchy@).drop_first()); }\n", where="before")])
+    rewrites=[R8])
 
 get_children = Fn(F, "get_children", impl=IMPL, impl_header=IMPL, slot="util", ret="res", key="SymbolManager::get_children", props=["C15", "C03"],
     requires=[C("ref_ok", "self.ref_ok(parent_ref)", ["C03"])],
